@@ -22,6 +22,8 @@ operation sequences by `K-bookkeeping`): after **any** sequence of these operati
 raise, every attached value is listed by each of its recorded ancestors, every listed child is
 attached and records the parent, and ids are unique (`links_mirrored_after_any_operations`).
 Swapping detach and attach in `replace…` (seed C08-a) breaks it (`attach_before_detach_breaks_links`).
+Values held in a dict: `replace_in_dict_keeps_links_mirrored` (unique ids), `no_relink_breaks_links`
+(seed C05-a), `shared_id_breaks_mirror` (the root of D2).
 *Complete* (every true read is a recorded ancestor) is a statement about the rules' bodies; it is
 tested by perturbation on the real code and is an assumption (H1) of C01's theorems.
 -/
@@ -91,9 +93,10 @@ theorem code_update_order_terminates (g : Efp.Graph.G) (fuel u : Nat) (rk : Arra
 
 /-- **the bookkeeping operations keep the links mirrored**: for every sequence of value creations,
 attribute assignments, replacements and detachments that does not raise -/
-theorem links_mirrored_after_any_operations (ops : List Efp.Links.Op) (s : Efp.Links.LS)
-    (h : Efp.Links.run ops = .ok s) : Efp.Links.Mirror s ∧ Efp.Links.Uniq s :=
-  ⟨(Efp.Links.run_inv ops s h).mirror, (Efp.Links.run_inv ops s h).slot.uniq⟩
+theorem links_mirrored_after_any_operations (ops : List Efp.Links.Op)
+    (hp : ∀ op ∈ ops, op.isPlain = true)       -- plain attributes (dict-held values: see below)
+    (s : Efp.Links.LS) (h : Efp.Links.run ops = .ok s) : Efp.Links.Mirror s ∧ Efp.Links.Uniq s :=
+  ⟨(Efp.Links.run_inv ops hp s h).mirror, (Efp.Links.run_inv ops hp s h).slot.uniq⟩
 
 /-- … and one assignment or replacement keeps them mirrored from any state that satisfies the invariant -/
 theorem replace_keeps_links_mirrored (s : Efp.Links.LS) (old new : Nat) (s' : Efp.Links.LS)
@@ -105,6 +108,43 @@ theorem setattr_keeps_links_mirrored (s : Efp.Links.LS) (sl : Efp.Links.Slot) (v
     (hI : Efp.Links.Inv s) (hv : v < s.size)
     (h : Efp.Links.setAttr s sl v = .ok s') : Efp.Links.Inv s' :=
   Efp.Links.setAttr_inv s sl v s' hI hv h
+
+/-- **replacing a value held in a per-usage-pattern dict** (`dict[key] = new`, which links the new
+value while the old one is still linked; then the old one is unlinked and the new one linked again)
+keeps the links mirrored and the ids unique — provided ids are unique before, i.e. every dict holds
+one value (no job shared by several usage patterns; with shared ids the statement is false: D2) -/
+theorem replace_in_dict_keeps_links_mirrored (s : Efp.Links.LS) (old new : Nat) (s' : Efp.Links.LS)
+    (hM : Efp.Links.Mirror s) (hU : Efp.Links.Uniq s) (hnew : (s.get new).cont = none)
+    (h : Efp.Links.replaceInDict s old new = .ok s') : Efp.Links.Mirror s' ∧ Efp.Links.Uniq s' :=
+  Efp.Links.replaceInDict_links s old new s' hM hU hnew h
+
+/-- input 0 in slot (0,0); value 1 computed from it, held in the dict (0,100) under key 0; a freshly
+computed replacement 2 -/
+def demoDict : Except Efp.Links.LErr Efp.Links.LS :=
+  Efp.Links.run [.mk [], .setAttr (0, 0) 0, .mk [0], .dictSet (0, 100) 0 1, .mk [0]]
+
+/-- **skipping the final re-linking** (an "already linked to this attribute, nothing to do" shortcut
+in `set_modeling_obj_container`: seed C05-a) loses the child link: the replacement was not added
+because the old value had the same id, and unlinking the old value removed that id -/
+theorem no_relink_breaks_links :
+    (match demoDict with
+     | .ok s => (match Efp.Links.replaceInDictNoRelink s 1 2 with
+                 | .ok s' => Efp.Links.mirrorOk s'
+                 | .error _ => true)
+     | .error _ => true) = false := by decide +kernel
+
+example : (match demoDict with
+     | .ok s => (match Efp.Links.replaceInDict s 1 2 with
+                 | .ok s' => Efp.Links.mirrorOk s'
+                 | .error _ => false)
+     | .error _ => false) = true := by decide +kernel
+
+/-- two values sharing an id (two entries of one dict) and an ancestor: only one of them is listed
+as a child — the root of finding D2 -/
+theorem shared_id_breaks_mirror :
+    (match Efp.Links.run [.mk [], .setAttr (0, 0) 0, .mk [0], .mk [0], .dictSet (0, 100) 0 1, .dictSet (0, 100) 1 2] with
+     | .ok s => Efp.Links.mirrorOk s
+     | .error _ => true) = false := by decide +kernel
 
 /-- the state in which a calculated value 1 (slot (0,1)) depends on an input 0 (slot (0,0)) and a
 freshly computed replacement 2 with the same ancestor exists -/
